@@ -17,17 +17,17 @@ LEVEL_TEXT = ("_locate_droplets_in_mask_cartesian is verified as a whole for dim
               "gives the empty emulsion. Ghost update laws (counts add up, mean of a disjoint union is the count-weighted mean: A-SUM) are "
               "trusted mathematics. That the label classes are exactly the periodic connected components for NON-winding components at the "
               "skipped pairs is topology (not applicable to contracts); it, the ndimage contracts and the cylindrical variants are covered by "
-              "the exhaustive small-image comparison with an independent periodic flood fill (bounded) - hence level 'other'.")
+              "the exhaustive small-image comparison with an independent periodic flood fill (bounded). Cylindrical grids: _locate_droplets_in_mask_cylindrical_single is verified as a whole (filter invariant: `indices` are the labels of the objects whose bounding box starts at the axis; none -> empty emulsion; one droplet per on-axis object at x = y = 0, z = z_min + (mean z index + 1/2) dz, volume = summed CELL volumes; the spanning signal only for an on-axis object reaching beyond the grid's z-length) and so is the periodic wrapper (wrap-padding by one period on both sides of z only, candidates moved back by exactly one period, kept exactly in the half-open box [z_min, z_max), duplicates removed once; spanning signal or non-periodic z: the unpadded image is analysed and overlapping candidates are removed once) - the obligations that fail when fixes F1, F2, F15, F16 are reverted. The two KNOWN findings of the periodic cylinder (spanning fallback, Euclidean overlap metric) are properties of that design, not of a single function contract, and show in the bounded comparison only. Hence level 'other'.")
 LEVEL_NOTE = ("ASSUMED: scipy.ndimage.label / center_of_mass / sum on binary images; numpy masked assignment, np.unique, itertools.product order; "
               "A-SUM (finite sums over disjoint cell sets); A-PDE: transform(cell->grid) affine, normalize_point wraps by whole periods; contract of "
               "SphericalDroplet.from_volume (C12) and Emulsion.remove_overlapping (C10); induction over loop iterations from the invariants; "
-              "A-FP; cylindrical grids: bounded only, with two KNOWN FINDINGS (spanning fallback, Euclidean overlap metric on periodic z)")
-CONTRACTS = [lm.LocateCartesian().ident, lm.LocateCylSingle().ident, em.RemoveOverlapping().ident, em.Overlaps().ident]
+              "numpy.pad(wrap), ndimage.find_objects / sum_labels contracts; A-FP; cylindrical grids: two KNOWN FINDINGS (spanning fallback, Euclidean overlap metric on periodic z)")
+CONTRACTS = [lm.LocateCartesian().ident, lm.LocateCylSingle().ident, lm.LocateCylWrapper().ident, em.RemoveOverlapping().ident, em.Overlaps().ident]
 LEMMAS = ["strictly-largest-droplet-survives"]
 CLAUSES = {"droplets <-> connected components (faces + periodic boundaries), one-to-one": "merge invariants proved; equality with the periodic components "
            "for non-winding shapes: bounded (exhaustive <= 4x4, 3x2x2; 6000 random)",
            "volume == component's total cell volume": "proved (ghost counts)",
            "position == centre of mass of the unwrapped component (mod period)": "proved for the unwrapping the code constructs; consistency at skipped pairs: bounded",
            "returned droplets never overlap; a component is left out only for a larger overlapping one": "C10 contract (proved) + call-site clause (proved)",
-           "cylindrical grids": "bounded; known findings listed in known_findings.jsonl"}
+           "cylindrical grids": "both functions proved (function level); equality with the periodic components bounded; known findings listed in known_findings.jsonl"}
 BOUNDED = [lm.ImageEnumeration()]
